@@ -1,8 +1,9 @@
 (** Entry point of the extracted runner: one checker per domain. *)
-From Verif Require Import Json Breaker CorrBreaker CorrMatch CorrLoc CorrPindex CorrJs CorrConc CorrCron CorrCrolt CorrCronSys CorrService CorrHttp CorrSysSteer.
+From Verif Require Import Json Breaker CorrBreaker CorrMatch CorrLoc CorrPindex CorrJs CorrConc CorrCron CorrCrolt CorrCronSys CorrService CorrHttp CorrSysSteer CorrThrottle.
 
 Definition check_case (domain : string) (c : json) : json :=
   if String.eqb domain "breaker" then check_breaker c
+  else if String.eqb domain "throttle" then check_throttle c
   else if String.eqb domain "match" then check_match c
   else if has_prefix "loc" domain then check_loc c
   else if String.eqb domain "pindex" then check_pindex c
